@@ -12,9 +12,17 @@
     every line with the relations of LogPair (TotalStep, SameStep, SameFinal,
     Accounting).  Scenarios: the benign / lossy / dup / mixed / migrate / closing
     script profiles, frames of every type with hostile values from a key-holding
-    peer, HTTP/3 sessions (H3Connection on both endpoints: requests, responses,
-    pushes, trailers, datagrams; header values that are not UTF-8, huge names) and
-    HTTP/3 endpoints facing a peer that writes the malformed byte classes of C16.
+    peer, Version Negotiation packets in the first flight, resumption with 0-RTT
+    data, HTTP/3 sessions (H3Connection on both endpoints: requests, responses,
+    pushes, trailers, empty DATA frames, datagrams; header values that are not
+    UTF-8, huge names) and HTTP/3 endpoints facing a peer that writes the malformed
+    byte classes of C16 (including sections blocked on the QPACK encoder stream
+    and resumed later).
+
+A disagreement is reported once per (scenario, mode): the first line on which the
+"on" run differs from the "off" run; everything after it is its consequence.
+Before a disagreement is reported the scenario is run again with logging off: if
+two "off" runs differ, the harness (not logging) is to blame -> machinery failure.
 """
 import json
 import random
@@ -110,7 +118,8 @@ def h3_script(rnd, n, lossy):
             out.append(["h3req", rnd.randrange(len(P.EXTRA)), rnd.choice([0, 0, 10, 700, 4000]),
                         rnd.choice(["fin", "fin", "open"]), rnd.random() < 0.3])
         elif r < 0.38:
-            out.append(["h3more", rnd.randrange(4), rnd.choice([1, 300, 2500]), rnd.random() < 0.5])
+            n = rnd.choice([0, 1, 300, 2500])
+            out.append(["h3more", rnd.randrange(4), n, n == 0 or rnd.random() < 0.5])
         elif r < 0.43:
             out.append(["h3trailers", rnd.randrange(4), rnd.randrange(3)])
         elif r < 0.47:
@@ -164,7 +173,7 @@ def make_jobs(check, rnd):
     q = check.quick
     # 1. the script profiles of C01 / C09 on plain QUIC
     for prof in ("benign", "lossy", "dup", "mixed", "migrate", "closing"):
-        for i in range(10 if q else 70):
+        for i in range(10 if q else 200):
             cfg = base_cfg(rnd)
             if prof in ("mixed", "benign") and rnd.random() < 0.4:
                 cfg["datagram"] = 65536
@@ -181,7 +190,7 @@ def make_jobs(check, rnd):
                                                ["inject", src, pt, payload.hex(), tag],
                                                ["write", "c", 0, 100, True], ["deliver", 0], ["deliver", 0]],
                          "seed": 7, "hs_adv": pt != "1rtt", "profile": "hostile", "what": "%s<-%s" % (tag, src)})
-    for i in range(20 if q else 200):
+    for i in range(20 if q else 600):
         cfg = base_cfg(rnd)
         sc = script.random_script(rnd, rnd.choice([10, 30]), script.PROFILES[rnd.choice(["mixed", "lossy", "closing"])])
         tags = []
@@ -191,18 +200,31 @@ def make_jobs(check, rnd):
             tags.append(tag)
         jobs.append({"cfg": cfg, "script": sc, "seed": rnd.randrange(1 << 30), "hs_adv": rnd.random() < 0.3,
                      "profile": "hostile", "what": "+".join(tags)})
+    # 2b. Version Negotiation packets in the first flight; resumption with 0-RTT data
+    V1, V2 = 1, 0x6B3343CF
+    for tag, vs in (("other-version", [V2]), ("no-common-version", [0x1A2A3A4A]), ("contains-current", [V2, V1]), ("empty", []),
+                    ("many", [0x0A0A0A0A + 0x10101010 * i for i in range(12)] + [V2])):
+        for ver in ("v1", "v1->v2"):
+            jobs.append({"cfg": {"version": ver}, "script": [["vn", vs, 0x2A], ["drop", 0], ["deliver", 0], ["vn", vs, 0x55], ["write", "c", 0, 300, True]],
+                         "seed": 31, "hs_adv": True, "profile": "hostile", "what": "version-negotiation-%s/%s" % (tag, ver)})
+    for i in range(4 if q else 40):
+        cfg = base_cfg(rnd)
+        sc = [["write", "c", 0, rnd.choice([100, 1500, 4000]), rnd.random() < 0.5]] + \
+            script.random_script(rnd, rnd.choice([6, 20]), script.PROFILES[rnd.choice(["lossy", "benign", "dup"])])
+        jobs.append({"cfg": cfg, "script": sc, "seed": rnd.randrange(1 << 30), "hs_adv": True, "resume": True,
+                     "profile": "resume-0rtt", "what": "resume-0rtt"})
     # 3. HTTP/3 on both endpoints
     for i in range(len(P.EXTRA)):              # every header set once, request and response, no loss
         jobs.append({"cfg": {"alpn": ["h3"]}, "script": [["h3req", i, 0, "fin", False], ["deliver", 0], ["deliver", 0], ["deliver", 0]],
                      "seed": 11, "hs_adv": False, "h3": {"c": "h3", "s": "h3", "resp": [[0, 10, 0, -1]]},
                      "profile": "h3", "what": "request-headers-%d" % i})
         jobs.append({"cfg": {"alpn": ["h3"]}, "script": [["h3req", 0, 20, "fin", True], ["deliver", 0], ["deliver", 0], ["deliver", 0]],
-                     "seed": 12, "hs_adv": False, "h3": {"c": "h3", "s": "h3", "resp": [[i, 300, 1 + i % 2, i % 4 - 1]]},
+                     "seed": 12, "hs_adv": False, "h3": {"c": "h3", "s": "h3", "resp": [[i, [300, -1, 0][i % 3], 1 + i % 2, i % 4 - 1]]},
                      "profile": "h3", "what": "response-headers-%d" % i})
-    for i in range(30 if q else 300):
+    for i in range(30 if q else 900):
         cfg = base_cfg(rnd)
         cfg.update({"alpn": ["h3"], "datagram": rnd.choice([None, 65536])})
-        resp = [[rnd.randrange(len(P.EXTRA)), rnd.choice([0, 10, 3000]), rnd.choice([0, 0, 1, 2]), rnd.choice([-1, -1, 0, 1, 2])]
+        resp = [[rnd.randrange(len(P.EXTRA)), rnd.choice([0, 10, 3000, -1]), rnd.choice([0, 0, 1, 2]), rnd.choice([-1, -1, 0, 1, 2])]
                 for _ in range(3)]
         jobs.append({"cfg": cfg, "script": h3_script(rnd, rnd.choice([8, 20, 40]), rnd.random() < 0.6),
                      "seed": rnd.randrange(1 << 30), "hs_adv": False,
@@ -218,8 +240,24 @@ def make_jobs(check, rnd):
         cases = [rnd.choice(by_shape[k]) for k in keys[:90]]
         must = [c for c in raw_cases(rnd) if c[2] in ("VALUE_NONUTF8", "NAME_2000") and c[3] == 0]
         cases += must
+    else:
+        cases = cases + cases          # twice: raw_job draws the chunking, the prelude and the seed
     for c in cases:
         jobs.append(raw_job(rnd, c))
+    # header sections blocked on the QPACK encoder stream and resumed later (HEADERS, trailers, PUSH_PROMISE)
+    ctrl = ["ctrl", C16.frame(4, C16.settings([(1, 4096), (7, 16)])).hex(), False, "00"]
+    for role in ("server", "client"):
+        att, vic = ("c", "s") if role == "server" else ("s", "c")
+        pre = [] if role == "server" else [["h3req", 0, 0, "fin", False], ["deliver", 0], ["deliver", 0]]
+        blocked = [("headers", C16.frame(1, C16.blocked_section(role, "init")), True),
+                   ("trailers", C16.frame(1, C16.block(C16.first_headers(role))) + C16.frame(1, C16.blocked_section(role, "hdrs")), True)]
+        if role == "client":
+            blocked.append(("push-promise", C16.frame(5, C16.vi(0) + C16.blocked_section("server", "init")), False))
+        for name, data, fin in blocked:
+            sc = pre + [["raw", att] + ctrl, ["raw", att, "req", data.hex(), fin, ""], ["deliver", 0], ["deliver", 0],
+                        ["raw", att, "enc", C16.ENC_INS.hex(), False, "02"], ["deliver", 0], ["deliver", 0]]
+            jobs.append({"cfg": {"alpn": ["h3"], "datagram": 65536}, "script": sc, "seed": 21, "hs_adv": False,
+                         "h3": {vic: "h3", att: "raw"}, "profile": "h3-hostile", "what": "%s/blocked-%s-resumed" % (role, name)})
     return jobs
 
 
@@ -245,13 +283,14 @@ def judge(check, jobs, results, name):
     rechecked = {}
     for (ji, mode, is_model), (i, clause) in sorted(first.items()):
         job, ln, meta = jobs[ji], lines[i], results[ji]["meta"]
-        if ji not in rechecked:
+        if ji not in rechecked and len(rechecked) < 6:
             # the baseline must be deterministic, otherwise a difference says nothing about logging
+            # (re-run for the first few disagreeing scenarios)
             again = job_fn(job)
             base = lambda res: [(x["r"][0]["k"], x["r"][0]["raised"], P.decode(x, x["r"][0]["obs"])) for x in res["lines"] if x["ev"] == "step"] + \
                 [P.decode(res["lines"][-1], res["lines"][-1]["f"][0])]       # noqa: E731
             rechecked[ji] = base(again) == base(results[ji])
-        if not rechecked[ji]:
+        if not rechecked.get(ji, True):
             raise MachineryError("two runs of the same scenario with logging off differ: the harness is not deterministic (%s)"
                                  % job.get("what"))
         sig = signature(clause, ln, meta)
@@ -379,6 +418,9 @@ def run(check):
         p["packets"] += m["npkt"]
         p["h3_qlog_records"] += m["h3records"]
         p["runs_raising_with_logging_off"] += bool(m["raised_off"])
+        if job.get("resume"):
+            p["resumed_from_ticket"] = p.get("resumed_from_ticket", 0) + bool(m["resumed_from_ticket"])
+            p["with_0rtt_packets"] = p.get("with_0rtt_packets", 0) + bool(m["zero_rtt"])
     check.cov["profiles"] = prof
     check.cov["event_classes_seen"] = sorted({k for r in results for k in r["meta"]["kinds"]})
     check.cov["frame_types_sent"] = sorted({k for r in results for k in r["meta"]["ftypes"]})
